@@ -4,6 +4,7 @@ package main
 // Structure follows x/tools go/ssa/interp; data is symbolic (value.go).
 
 import (
+	"os"
 	"fmt"
 	"go/constant"
 	"go/token"
@@ -278,7 +279,16 @@ func (th *Thread) prepareCall(fr *frame, call *ssa.CallCommon) (fn Value, args [
 	return
 }
 
+var traceOn = os.Getenv("GOSMT_TRACE") != ""
+
 func (th *Thread) visitInstr(fr *frame, instr ssa.Instruction) continuation {
+	if traceOn {
+		if v, ok := instr.(ssa.Value); ok {
+			defer func() { fmt.Fprintf(os.Stderr, "TRACE %s: %s = %s  => %v\n", fr.fn.Name(), v.Name(), instr, fr.env[v]) }()
+		} else {
+			fmt.Fprintf(os.Stderr, "TRACE %s: %s\n", fr.fn.Name(), instr)
+		}
+	}
 	e := th.eng
 	p := e.pool
 	e.path.steps++
@@ -539,14 +549,40 @@ func (th *Thread) load(T types.Type, addr Value) Value {
 	panic(fmt.Sprintf("load from %T", addr))
 }
 
+// storeInto assigns v to the cell a. Structs and arrays are assigned element by
+// element IN PLACE (as go/ssa/interp does): addresses of fields / elements taken
+// before a whole-value store (the builder emits "&b.f ...; *b = T{}; *&b.f = x"
+// for "*b = T{f: x}") stay valid.
+func (th *Thread) storeInto(a *Value, v Value) {
+	switch nv := v.(type) {
+	case Struct:
+		if old, ok := (*a).(Struct); ok && len(old) == len(nv) {
+			th.eng.access(th, a, true)
+			for i := range old {
+				th.storeInto(&old[i], nv[i])
+			}
+			return
+		}
+	case Array:
+		if old, ok := (*a).(Array); ok && len(old) == len(nv) {
+			th.eng.access(th, a, true)
+			for i := range old {
+				th.storeInto(&old[i], nv[i])
+			}
+			return
+		}
+	}
+	th.eng.access(th, a, true)
+	*a = copyVal(v)
+}
+
 func (th *Thread) store(T types.Type, addr Value, v Value) {
 	switch a := addr.(type) {
 	case *Value:
 		if a == nil {
 			th.goPanic("runtime error: invalid memory address or nil pointer dereference")
 		}
-		th.eng.access(th, a, true)
-		*a = copyVal(v)
+		th.storeInto(a, v)
 		return
 	case *ArrPtr:
 		if a == nil {
